@@ -26,6 +26,18 @@ BUILTIN_EXC_BASES = {
 }
 
 
+def _conjuncts(t):
+    out = []
+    stack = [t]
+    while stack:
+        x = stack.pop()
+        if z3.is_and(x):
+            stack.extend(x.children())
+        else:
+            out.append(x)
+    return out
+
+
 class HObj:
     __slots__ = ('cls', 'fields')
 
@@ -168,8 +180,21 @@ class Engine:
         fr = self.frame
         line = getattr(node, 'lineno', 0) if node is not None else 0
         name = '%s:%s/%s' % (fr.mod.relpath.split('/')[-1], fr.contract.name if fr.contract else fr.qual, kind)
-        self.obligations.append(Obligation(name, list(st.pc), to_bool_term(goal) if goal is not False else z3.BoolVal(False),
-                                           fr.qual, line, kind.split('#')[0], note))
+        if goal is False:
+            goals = [z3.BoolVal(False)]
+        else:
+            # conjuncts that are literally among the hypotheses are discharged syntactically (a callee precondition
+            # that is the caller's own assumption); the others become separate verification conditions
+            known = set()
+            for a in st.pc:
+                for c in _conjuncts(a):
+                    known.add(c.get_id())
+            goals = [c for c in _conjuncts(to_bool_term(goal)) if c.get_id() not in known]
+            if not goals:
+                self.syntactic_discharges = getattr(self, 'syntactic_discharges', 0) + 1
+                goals = [z3.BoolVal(True)]
+        for g in goals:
+            self.obligations.append(Obligation(name, list(st.pc), g, fr.qual, line, kind.split('#')[0], note))
 
     def site(self, node, kind):
         """Stable name of the source site of an obligation: the pre-order ordinal of the statement that contains
@@ -1279,8 +1304,21 @@ class Engine:
 
     def call_user(self, fn, args, kw, st, node):
         if fn.mod is None:
-            # spec function: inline, merged
-            return self.inline_call(fn, args, kw, st, node, merge=True)
+            # spec function: inline, merged; memoised so that the same predicate over the same arguments is the
+            # same term (lets a callee precondition be recognised as the caller's own hypothesis)
+            key = None
+            if not kw:
+                try:
+                    key = (fn.qual, tuple(self._argkey(a, st) for a in args))
+                except TypeError:
+                    key = None
+            memo = self.__dict__.setdefault('_spec_memo', {})
+            if key is not None and key in memo:
+                return [(st, memo[key][0])]
+            rs = self.inline_call(fn, args, kw, st, node, merge=True)
+            if key is not None and len(rs) == 1:
+                memo[key] = (rs[0][1], args)       # keep args alive: ids are part of the key
+            return rs
         key = (fn.mod.relpath, fn.qual)
         c = self.reg.contracts.get(key)
         for alt in self.reg.alternatives.get(key, []):
@@ -1296,6 +1334,18 @@ class Engine:
             return self.inline_call(fn, args, kw, st, node, merge=bool(self.pure))
         raise Unsupported('call of %s:%s which has no contract and is not marked inline (line %s)'
                           % (fn.mod.relpath, fn.qual, getattr(node, 'lineno', '?')))
+
+    def _argkey(self, a, st):
+        if is_z3(a):
+            return ('z', a.get_id())
+        if isinstance(a, (int, str, bool, fractions.Fraction)) or a is None:
+            return ('c', a)
+        if isinstance(a, Ref):
+            o = st.heap[a.oid]
+            return ('r', a.oid, tuple(sorted((f, self._argkey(v, st)) for f, v in o.fields.items())))
+        if isinstance(a, (View, Rec, Opt, Tup, Fn)):
+            return ('o', id(a))
+        raise TypeError
 
     def inline_call(self, fn, args, kw, st, node, merge=False):
         """Execute the callee's real body in place."""
